@@ -103,6 +103,59 @@ def corpus(tier, seed):
     return files
 
 
+COMATCH_PRELUDE = '''param (
+  (/core; /numeric; /system) :
+  @(import("/repo/lib/std/builtin.zy"))
+) in
+let (/VType; /CType; /Thk; /Ret; /Unit) = core in
+let (Scalar = Int64, int64) = numeric/int64 in
+let (/process; /OS) = system in
+'''
+
+
+def model_generated(tier):
+    """Rejected programs whose diagnostic lists several items, taken from the OTHER models' enumerations: non-exhaustive
+    matches with >= 2 missing patterns (spec/ZyCoverage.tla, incl. the 11-constructor type whose list is truncated) and
+    comatches missing >= 2 destructors (spec/ZyCoMatch.tla).  Which items are listed, and in which order, is where an
+    unordered container shows."""
+    import p_cov
+    files = []
+    d = os.path.join(W, "gen")
+    import shutil
+    shutil.rmtree(d, ignore_errors=True)
+    os.makedirs(d)
+    stats = {"states": 0, "transitions": 0}
+    for cfg, name, n in (("MC_ZyCoverage_q.cfg", "q16", 24 if tier == "quick" else 200), ("MC_ZyCoverage_wide.cfg", "wide16", 12 if tier == "quick" else 100)):
+        res, cases = p_cov.gen(cfg, name)
+        stats["states"] += res["distinct"]; stats["transitions"] += res["generated"]
+        sub = os.path.join(d, name)
+        lib.zyconf(["render-coverage", cases, sub, str(n)], timeout=600)
+        got = sorted(os.path.join(sub, f) for f in os.listdir(sub))
+        require(len(got) >= min(n, 10), "too few rejected coverage programs from %s: %d" % (cfg, len(got)))
+        for k, f in enumerate(got):
+            t = os.path.join(d, "%s_%s" % (name, os.path.basename(f)))
+            os.replace(f, t)
+            files.append(t)
+    cout = os.path.join(W, "comatch.tlc.out")
+    res = lib.run_tlc("ZyCoMatch.tla", "MC_ZyCoMatch.cfg", cout, workers=4, coverage=False)
+    stats["states"] += res["distinct"]; stats["transitions"] += res["generated"]
+    ccases = os.path.join(W, "comatch.cases.ndjson")
+    lib.extract_replay(cout, ccases)
+    os.remove(cout)
+    k = 0
+    for l in open(ccases):
+        c = json.loads(l)
+        if len(c["missing"]) >= 2 and not c["dups"] and all(a in c["dtors"] for a in c["arms"]) and k < (8 if tier == "quick" else 60):
+            decl = "".join(" | .%s : Ret Int64" % x for x in c["dtors"])
+            body = "".join(" | .%s => ret %d" % (x, i + 1) for i, x in enumerate(c["arms"]))
+            t = os.path.join(d, "comatch%03d.zy" % k)
+            open(t, "w").write(COMATCH_PRELUDE + "let C = codata%s end in\nlet c : Thk C = { comatch%s end } in\n! (process/exit) 0\n" % (decl, body))
+            files.append(t)
+            k += 1
+    require(k >= 4, "too few comatch programs with several missing destructors")
+    return files, stats
+
+
 COMMANDS = [["check"], ["run"], ["fmt", "--check"], ["build", "-t", "zir"], ["build", "-t", "zasm"], ["build", "-t", "asm"], ["build", "-t", "llvm"]]
 
 
@@ -130,10 +183,13 @@ def run(prop, tier):
     # design level: every iteration order gives one result (ZyGraph OrderConfluent)
     res0 = lib.run_tlc("ZyGraph.tla", "MC_ZyGraph_alg3.cfg", os.path.join(W, "graph.tlc.out"), workers=12, coverage=False, timeout=3000)
     files = corpus(tier, seed)
+    generated, gstats = model_generated(tier)
     n = 5 if tier == "quick" else 25
     # the multi-culprit programs get more processes: two equally likely outcomes survive 12 runs with probability 2^-11
     adversarial = ("dup_pattern.zy", "rec_group_faulty.zy", "value_cycle.zy", "rejected_multi.zy")
     jobs = [(c, f, r) for f in files for c in COMMANDS for r in range(max(n, 12) if os.path.basename(f) in adversarial and c == ["check"] else n)]
+    # model-generated rejected programs: `check` only, 12 processes each (two orders survive with probability 2^-11)
+    jobs += [(["check"], f, r) for f in generated for r in range(max(n, 12))]
     with ThreadPoolExecutor(max_workers=16) as ex:
         results = list(ex.map(one, jobs))
     require(len(results) >= 500, "too few process runs")
@@ -167,13 +223,16 @@ def run(prop, tier):
     classes = {}
     for r in results:
         classes["%s exit %s" % (r["cmd"], r["exit"])] = classes.get("%s exit %s" % (r["cmd"], r["exit"]), 0) + 1
-    out.coverage = {"states": res["distinct"] + res0["distinct"], "transitions": res["generated"] + res0["generated"],
+    out.coverage = {"states": res["distinct"] + res0["distinct"] + gstats["states"], "transitions": res["generated"] + res0["generated"] + gstats["transitions"],
+                    "model_generated_rejected_programs": len(generated),
                     "traces_validated_against_impl": len(groups),
                     "samples": [{k: v for k, v in r.items() if not k.startswith("_")} for r in results[:3]],
                     "files": len(files), "commands": [" ".join(c) for c in COMMANDS], "processes": len(results), "runs_per_command_and_file": n,
                     "exit_classes": classes,
                     "explanation": "every command (check, run, fmt --check, build -t zir|zasm|asm|llvm) on every corpus file (repository sources, a program with "
-                                   "five independent type errors, a block with 24 independent contributions in shuffled textual order) in N fresh processes; "
+                                   "five independent type errors, a block with 24 independent contributions in shuffled textual order, multi-culprit programs) in N fresh processes; "
+                                   "rejected programs generated by the other models whose diagnostic lists several items (ZyCoverage: >= 2 missing patterns incl. truncated "
+                                   "lists over 11 constructors; ZyCoMatch: >= 2 missing destructors) under `check` in 12 processes each; "
                                    "the trace of (cmd, file, exit, sha256(stdout), sha256(stderr)) is validated by TLC (ZyDeterminismTrace); ZyGraph's "
                                    "OrderConfluent invariant is the design-level half."}
     out.assumptions = ["fresh processes differ in SipHash keys and ASLR by construction", "programs reading stdin, time or random_int are excluded from the corpus"]
